@@ -16,6 +16,19 @@ claimed={
  "C15": ("OpenIndex/OpenIndexFromBoltDatabase/options/Close executed on the bbolt model for each damage of a valid index and each option set; no panic path, lock released on every failure, idempotent Close, no creation of absent paths; opener flag arithmetic over symbolic flags.", "§4 C15", "Outside: combinations of damages, corrupt bbolt pages."),
  "C16": ("Flush onto pre-existing files of four kinds must fail and leave the ghost file's version unchanged; open/query/schema/close sequences must not change it (any write transaction on the model bumps it); exclusive-create flag arithmetic over symbolic flags.", "§4 C16", "Outside: kernel O_EXCL semantics, read-only files."),
 }
+
+claimed.update({
+ "C04": ("Lockset discipline (Eraser) evaluated on every feasible path of the concurrent phase — a sufficient condition for data-race freedom decided over all explored paths, confirmed natively by the race detector — plus bounded-preemption exploration of interleavings at synchronisation points with each result compared with the sequential reference.", "§4 C04", "Outside: >2 goroutines, more preemptions than stated, gRPC request goroutines, bbolt's internal locking."),
+ "C09": ("ParseQuery with its lexer goroutine (coroutine semantics), strconv.Atoi and utf8 decoding executed symbolically on arbitrary short byte strings and on grammar-derived token sequences with one mutation and symbolic token contents; compared with an independent reference recogniser; no panic, bounded termination, no goroutine left.", "§4 C09", "Outside: longer inputs than stated, more than one mutation."),
+ "C10": ("QueryToString then ParseQuery (and again) executed symbolically over every small tree with symbolic first-leaf contents; both sides normalised; stability of the second text.", "§4 C10", "Symbolic placeholders up to 4 digits only (the %d/Atoi round trip does not bit-blast; 6 concrete boundary values up to MaxInt32 are added). Outside: deeper/wider trees."),
+ "C11": ("fileConn.QueryContext / Prepare / fileStmt.Query / NumInput / ReplacePlaceholders / Execute executed with symbolic argument strings on a fixed index; rows compared with a reference evaluation; too few arguments must give an error, never a panic.", "§4 C11", "Outside: database/sql itself, integer arguments, the gRPC statement path."),
+ "C12": ("updogDriver.Open/openFile, QueryContext/Prepare, newRows, rows.Columns/Next/ColumnType* executed over forked datasets, 10 query texts and 4 DSN option sets; rows compared with an independent SQL-style reference.", "§4 C12", "Datasets and query texts are enumerated by forking (small alphabet); the solver's role here is path feasibility. Outside: net/url, database/sql."),
+ "C13": ("server.Query, convert.ToQuery/ToProtobufResult/ToResult executed with symbolic ids, counts and strings; batch order, id defaulting, all-or-error, field-by-field equality with Index.Execute.", "§4 C13", "The grpc:// driver path (grpcStmt.query with a stub client) is not exercised in this round. Outside: wire encoding, transport."),
+ "C14": ("server.Query/convert.toExpr/Index.Execute executed on every request tree within the bound in which any wire-optional pointer may be nil; every panic path is a violation; follow-up probe must be correct.", "§4 C14", "Outside: protobuf decoding of raw bytes, deep nesting (stack)."),
+ "C17": ("Driver handle cache (openFile, fileConn.Close/QueryContext) on the bbolt model whose exclusive file lock turns a second open of a held file into a blocked goroutine: all short sequential histories and all bounded-preemption interleavings of two goroutines; deadlock, panic, wrong rows or a lock left behind are violations.", "§4 C17", "Outside: database/sql's pool, >2 goroutines, >2 files."),
+ "C18": ("Both AddRow implementations under 2 goroutines: lockset over all accesses (race detector confirms natively) and bounded-preemption interleavings; ids a permutation, flushed index equals sequential insertion (unique tags).", "§4 C18", "Outside: more goroutines/rows; 1000-row temp commits."),
+ "C19": ("createCmd/normalizeHeader and both writers executed with a contract-obeying csv stub and symbolic header/field bytes; both modes compared observationally with a reference index; every fault position must produce an error return without blocking and without touching an existing output.", "§4 C19", "Thinnest claim of the set: encoding/csv's parsing, cobra, exit codes are outside; the check covers the repo's own loop, normalisation and error paths."),
+})
 NA={}
 checks=[]
 for pid,(text,design,note) in claimed.items():
